@@ -21,6 +21,28 @@ namespace C14
 
 abbrev Flags := List (String × Bool)
 
+/-! ### the observation functions through arrays (value entries and maps are indexed once per
+    attribute instead of once per corner); equal to `Geometry.pointTuple` / `describes`
+    (`pointTupleA_eq`, `describesA_eq` in DracoProofs/C14Verify.lean) -/
+
+/-- per attribute: the value entries and the explicit map, as arrays -/
+def tupleTable (g : Geometry) : List (Array Bytes × Option (Array Nat)) :=
+  g.atts.map fun a => (a.entries.toArray, a.mapArray)
+
+def tupleOf (tb : List (Array Bytes × Option (Array Nat))) (p : Nat) : List Bytes :=
+  tb.map fun (e, ma) => e.getD (idxOf ma p) []
+
+def pointTuplesA (g : Geometry) : List (List Bytes) :=
+  let tb := tupleTable g
+  (List.range g.numPoints).map (tupleOf tb)
+
+def trianglesOfA (g : Geometry) (faces : List Face) : List (List (List Bytes)) :=
+  let tb := tupleTable g
+  faces.map fun f => [tupleOf tb f.1, tupleOf tb f.2.1, tupleOf tb f.2.2]
+
+def describesA (g : Geometry) : List (List (List Bytes)) :=
+  if g.isMesh then trianglesOfA g g.faces else (pointTuplesA g).map fun t => [t]
+
 def Flags.toText (f : Flags) : String :=
   if f.isEmpty then "-" else " ".intercalate (f.map fun (n, b) => n ++ "=" ++ (if b then "T" else "F"))
 
@@ -46,13 +68,13 @@ def sameSet {α : Type} [BEq α] (l1 l2 : List α) : Bool := l1.all l2.contains 
 /-- mesh: same multiset of oriented triangles; cloud: same multiset of points -/
 def sameDescription (g g' : Geometry) : Bool :=
   g'.isMesh == g.isMesh &&
-  (if g.isMesh then sameTriangles (describes g') (describes g) else (describes g').isPerm (describes g))
+  (if g.isMesh then sameTriangles (describesA g') (describesA g) else (describesA g').isPerm (describesA g))
 
 /-- mesh: same multiset of oriented triangles; cloud: same SET of points, none added -/
 def sameDescriptionUpToDuplicatePoints (g g' : Geometry) : Bool :=
   g'.isMesh == g.isMesh &&
-  (if g.isMesh then sameTriangles (describes g') (describes g)
-   else sameSet (describes g') (describes g) && g'.numPoints ≤ g.numPoints)
+  (if g.isMesh then sameTriangles (describesA g') (describesA g)
+   else sameSet (describesA g') (describesA g) && g'.numPoints ≤ g.numPoints)
 
 def sameShape (g g' : Geometry) : Bool :=
   g'.atts.length == g.atts.length &&
@@ -63,7 +85,7 @@ def sameShape (g g' : Geometry) : Bool :=
 def noDupValuesSupported (g' : Geometry) : Bool := g'.atts.all fun a => !a.dedupSupported || nodupB a.entries
 def noDupValuesAll (g' : Geometry) : Bool := g'.atts.all fun a => nodupB a.entries
 def noDupKeys (g' : Geometry) : Bool := nodupB ((List.range g'.numPoints).map g'.pointKey)
-def noDupTuples (g' : Geometry) : Bool := nodupB ((List.range g'.numPoints).map g'.pointTuple)
+def noDupTuples (g' : Geometry) : Bool := nodupB (pointTuplesA g')
 def allSupported (g' : Geometry) : Bool := g'.atts.all (·.dedupSupported)
 
 /-! ### deduplication -/
@@ -107,10 +129,11 @@ def nothingToDo (o : CleanupOpts) : Bool :=
     result, the `mIn − mOut` missing ones are justified when all of them can be degenerate faces
     (`remove_degenerated_faces`) or when an equal triangle survives (`remove_duplicate_faces`). -/
 def removalsDocumented (o : CleanupOpts) (g g' : Geometry) : Bool :=
-  let tin := rtris (describes g)
-  let tout := rtris (describes g')
+  let tin := rtris (describesA g)
+  let tout := rtris (describesA g')
   let degIn := g.faces.map (posDegenerate g)
-  tin.eraseDups.all fun c =>
+  -- only the classes of which an instance is missing need a justification
+  (msub tin tout).eraseDups.all fun c =>
     let mIn := tin.count c
     let mOut := tout.count c
     let d := ((tin.zip degIn).filter fun (t, dg) => dg && t == c).length
@@ -126,14 +149,14 @@ def verifyCleanup (o : CleanupOpts) (g : Geometry) : Option Geometry → Flags
   | none => [("status", !nothingToDo o && g.positionAtt.isNone)]
   | some g' =>
     [("valid", g'.valid && g'.isMesh && sameShape g g'),
-     ("only-input-triangles", subMultiset (rtris (describes g')) (rtris (describes g))),
+     ("only-input-triangles", subMultiset (rtris (describesA g')) (rtris (describesA g))),
      ("documented-removals-only", removalsDocumented o g g'),
      ("no-degenerate-face-left", !o.removeDegeneratedFaces || g'.faces.all (!posDegenerate g' ·)),
      ("no-duplicate-face-left", !o.removeDuplicateFaces || noDuplicateFaces g'),
      ("nothing-unused-left", !o.removeUnusedAttributes || nothingUnused g'),
      ("points-and-values-kept", o.removeUnusedAttributes ||
         (g'.numPoints == g.numPoints && g'.atts.map (·.numValues) == g.atts.map (·.numValues) &&
-         (List.range g.numPoints).all fun p => g'.pointTuple p == g.pointTuple p))]
+         pointTuplesA g' == pointTuplesA g))]
 
 /-! ### MeshStripifier -/
 
@@ -143,7 +166,7 @@ def verifyStrips (restart : Bool) (g : Geometry) : Option (List Nat) → Flags
   | some s =>
     let expected := if restart then g.faces else g.faces.filter (!Strips.isDegenerateTriangle ·)
     [("indices", s.all fun i => i < g.numPoints || (restart && i == Strips.restartIndex)),
-     ("describes", sameTriangles ((Strips.triangles restart s).map (triangleOfB g)) (expected.map (triangleOfB g)))]
+     ("describes", sameTriangles (trianglesOfA g (Strips.triangles restart s)) (trianglesOfA g expected))]
 
 /-! ### builders -/
 
@@ -154,7 +177,7 @@ def verifyBuildMesh (s : MeshSpec) : Option Geometry → Flags
     if !s.wellFormed then []
     else
       [("valid", g'.valid && g'.isMesh && g'.atts.length == s.atts.length),
-       ("describes", sameTriangles (describes g') s.triangles),
+       ("describes", sameTriangles (describesA g') s.triangles),
        ("no-duplicate-values", s.numFaces == 0 || noDupValuesSupported g'),
        ("no-duplicate-points", noDupKeys g'),
        ("no-identical-points", s.numFaces == 0 || !allSupported g' || noDupTuples g'),
@@ -168,7 +191,7 @@ def verifyBuildPointCloud (s : PointCloudSpec) : Option Geometry → Flags
     if !s.wellFormed then []
     else if s.dedup then
       [("valid", g'.valid && !g'.isMesh && g'.atts.length == s.atts.length),
-       ("describes", sameSet (describes g') s.points && g'.numPoints ≤ s.numPoints),
+       ("describes", sameSet (describesA g') s.points && g'.numPoints ≤ s.numPoints),
        ("no-duplicate-values", s.numPoints == 0 || noDupValuesSupported g'),
        ("no-duplicate-points", noDupKeys g'),
        ("no-identical-points", s.numPoints == 0 || !allSupported g' || noDupTuples g'),
@@ -176,7 +199,7 @@ def verifyBuildPointCloud (s : PointCloudSpec) : Option Geometry → Flags
        ("strict-no-identical-points", noDupTuples g')]
     else
       [("valid", g'.valid && !g'.isMesh && g'.atts.length == s.atts.length),
-       ("describes", (describes g').isPerm s.points)]
+       ("describes", (describesA g').isPerm s.points)]
 
 end C14
 end Draco
